@@ -7,11 +7,12 @@ use std::sync::Arc;
 use serde::{Deserialize, Serialize};
 
 use crate::case::Case;
+#[cfg(feature = "e1")]
 use crate::engine;
 use crate::explore::{Found, Group, PropSpec, RunResult};
 use crate::hist::Hist;
 use crate::props;
-use crate::sched::{SchedKind, SchedSpec};
+use crate::outcome::{SchedKind, SchedSpec};
 
 pub fn verif_dir() -> PathBuf {
     std::env::var_os("NXV_DIR").map(PathBuf::from).unwrap_or_else(|| PathBuf::from("/verif"))
@@ -90,6 +91,7 @@ pub fn write_replay(prop: &str, seed: u64, f: &Found) -> PathBuf {
     path
 }
 
+#[cfg(feature = "e1")]
 /// Re-executes a replay file; exit code 1 (and a VIOLATION line) iff the same
 /// rule fires again.
 pub fn replay(path: &str) -> i32 {
@@ -260,6 +262,7 @@ pub fn write_evidence(prop: &PropSpec, seed: u64, thorough: bool, res: &RunResul
     std::fs::write(&path, serde_json::to_string_pretty(&ev).unwrap()).unwrap();
 }
 
+#[cfg(feature = "e1")]
 /// Runs `n` generated cases of several profiles twice each and compares the
 /// decision and history hashes. Any divergence is a harness error.
 pub fn selftest_determinism(seed: u64, n: u64) -> i32 {
